@@ -8,7 +8,7 @@ from sympy import Symbol, Integer
 
 from ..core import src, AnalysisError
 from .. import units as U
-from ..symx import SymExec, make_args, Undecided, alg_equal, sym_equal
+from ..symx import SymExec, make_args, Undecided, alg_equal, sym_equal, Arr
 from ..kernels import SPLINE_HANDLERS, FEQ
 from .. import agree, lints
 from .C05 import density as density_index_spaces, orders
@@ -632,7 +632,8 @@ Integer1 = 1
 def vectorised_formula(chk, rel, fn0, name, perturbed):
     """second reading of a kernel the loop interpreter cannot follow: the whole-array fragment. -> True when an obligation was made"""
     ranks = _array_ranks(chk.mod(rel).tree, fn0)
-    if "rho" not in ranks or any(isinstance(n, ast.While) for n in ast.walk(fn0)):
+    R = kernel_roles(ranks)
+    if R["rho"] not in ranks or any(isinstance(n, ast.While) for n in ast.walk(fn0)):
         return False
     vk = VecKernel(fn0, ranks)
     label = "rho[i,j,k] = sum_l w_l (f[i,j,k,l]" + (" - f_eq[i,l])" if perturbed else ")")
@@ -641,9 +642,9 @@ def vectorised_formula(chk, rel, fn0, name, perturbed):
     except PartialOut as e:
         chk.ob("F3-density-sum", fn0, label, False, f"{e}: rho is not the velocity integral there", file=rel, func=name)
         return True
-    if "rho" not in vk.written:
+    if R["rho"] not in vk.written:
         raise Undecided("no store into the whole of `rho` found")
-    val, part = vk.written["rho"]
+    val, part = vk.written[R["rho"]]
     i, j, k, l = (Symbol(n, integer=True) for n in "ijkl")
     # the generic element is taken at index symbols that no loop variable of the kernel can be called
     probes = tuple(Symbol(f"_p{n}", integer=True) for n in range(3))
@@ -651,10 +652,10 @@ def vectorised_formula(chk, rel, fn0, name, perturbed):
     if got is None:
         raise Undecided("rank of the stored value")
     got = sp.sympify(got)
-    nc = Symbol("n0_quad_coeffs", integer=True, positive=True)
+    nc = Symbol(f"n0_{R['quad_coeffs']}", integer=True, positive=True)
     # the extents of the contracted axes are equal by the kernels' contract (index-space rules of C05): one name for them
-    got = got.subs({Symbol("n3_grid", integer=True, positive=True): nc, Symbol("n1_feq", integer=True, positive=True): nc})
-    q, g, fe = sp.Function("quad_coeffs"), sp.Function("grid"), sp.Function("feq")
+    got = got.subs({Symbol(f"n3_{R['grid']}", integer=True, positive=True): nc, Symbol(f"n1_{R['feq']}", integer=True, positive=True): nc})
+    q, g, fe = sp.Function(R["quad_coeffs"]), sp.Function(R["grid"]), sp.Function(R["feq"])
     row, coff = (i, sp.Integer(0))
     spec = None
     # one name for the summation variables of sums over the same range (a difference of two contractions is one contraction)
@@ -673,6 +674,14 @@ def vectorised_formula(chk, rel, fn0, name, perturbed):
     term = q(l) * (g(i, j, k, l) - (fe(row, l) if perturbed else 0))
     spec = sp.Sum(term, (l, 0, nc - 1))
     ok = alg_equal(got, spec)
+    if perturbed:
+        KERNEL_FEQ_ORIENT[name] = "rv"
+    if perturbed and ok and part is None and feq_rv_against_caller(chk, name, rel, fn0, got, spec, "rho[i,j,k] = sum_l w_l (f[i,j,k,l] - f_eq[i,l])"):
+        return True
+    if perturbed and not ok and part is None and not nested:
+        lab_ = "rho[i,j,k] = sum_l w_l (f[i,j,k,l] - f_eq[i,l])"
+        if feq_orientation_verdict(chk, name, rel, fn0, got, lambda o: sp.Sum(q(l) * (g(i, j, k, l) - fe(l, i)), (l, 0, nc - 1)), lab_, R):
+            return True
     if not ok and (nested or len({s_.limits for s_ in got.atoms(sp.Sum)}) > 1):
         raise Undecided(f"whole-array formula {str(got)[:120]} is not in a comparable form")
     label = "rho[i,j,k] = sum_l w_l (f[i,j,k,l]" + (" - f_eq[i,l])" if perturbed else ")")
@@ -692,6 +701,7 @@ def vectorised_formula(chk, rel, fn0, name, perturbed):
     return True
 
 
+KERNEL_ROLES = {}               # kernel name -> parameter names by role
 KERNEL_ROW_OFFSET = {}          # kernel name -> offset c of the equilibrium row it reads: feq[i + c, l] (0, or a scalar parameter)
 
 
@@ -727,14 +737,316 @@ def _whole_array_features(fn, ranks):
     return False
 
 
+def kernel_roles(ranks):
+    """parameter names of a density kernel by ROLE, from the ranks of the annotations: the output (rank 3), the distribution (rank 4),
+    the equilibrium rows (rank 2), the weights (rank 1); the repository's names where the ranks do not identify them"""
+    roles = {"rho": "rho", "grid": "grid", "feq": "feq", "quad_coeffs": "quad_coeffs"}
+    by_rank = {}
+    for n_, (r, _) in ranks.items():
+        by_rank.setdefault(r, []).append(n_)
+    for role, r in (("rho", 3), ("grid", 4), ("feq", 2), ("quad_coeffs", 1)):
+        if len(by_rank.get(r, [])) == 1:
+            roles[role] = by_rank[r][0]
+    return roles
+
+
+def part_views(fn0, ranks, out="rho"):
+    """which part of the output array the element stores of a loop kernel go to.  `out.real` / `out.imag` (used directly or through a
+    local bound once to it) is a VIEW of one part of the storage: a store through it leaves the other part as it was.
+    -> (fn', part): fn' = copy of the kernel with the views of the real part written as the array itself (the reading of the real
+    part: every other operand of the kernels is real), part = None when every store goes to whole elements, 'real' when EVERY store
+    into `out` goes through the view of its real part and the annotation admits complex storage.  Anything else raises Undecided."""
+    import copy
+    if out not in ranks:
+        return fn0, None
+    cplx = ranks[out][1]
+    fn = copy.deepcopy(fn0)
+    par = {}
+    for n in ast.walk(fn):
+        for c in ast.iter_child_nodes(n):
+            par[c] = n
+
+    def is_part(e):
+        return isinstance(e, ast.Attribute) and e.attr in ("real", "imag") and isinstance(e.value, ast.Name) and e.value.id == out
+    if not any(is_part(n) for n in ast.walk(fn)):
+        return fn0, None
+    alias = {}
+    for st in ast.walk(fn):
+        if isinstance(st, ast.Assign) and len(st.targets) == 1 and isinstance(st.targets[0], ast.Name) and is_part(st.value):
+            v = st.targets[0].id
+            nst = sum(1 for n in ast.walk(fn) if isinstance(n, ast.Name) and n.id == v and isinstance(n.ctx, (ast.Store, ast.Del)))
+            if nst != 1 or v in {a.arg for a in fn.args.args}:
+                raise Undecided(f"`{v}` is bound to `{src(st.value)}` and to something else")
+            alias[v] = (st.value.attr, st)
+    kinds = set()
+
+    def base_kind(e):
+        """'whole' / 'real' / 'imag' when e denotes the output storage or one of its part views"""
+        if isinstance(e, ast.Name) and e.id == out:
+            return "whole"
+        if isinstance(e, ast.Name) and e.id in alias:
+            return alias[e.id][0]
+        if is_part(e):
+            return e.attr
+        return None
+    defs = {id(a[1]) for a in alias.values()}
+    for n in ast.walk(fn):
+        k = base_kind(n)
+        if k is None or (isinstance(n, ast.Name) and isinstance(par.get(n), ast.Attribute) and is_part(par[n])):
+            continue
+        p = par.get(n)
+        if isinstance(n, ast.Name) and isinstance(n.ctx, ast.Store):
+            continue                                    # the binding of the alias itself
+        if is_part(n) and id(p) in defs:
+            continue
+        if not (isinstance(p, ast.Subscript) and p.value is n):
+            if k == "whole" and isinstance(p, ast.Attribute) and p.attr == "shape":
+                continue
+            raise Undecided(f"`{src(n)}` (the {k} storage of `{out}`) is used other than element by element: `{src(p)[:50]}`")
+        if isinstance(p.ctx, ast.Store):
+            kinds.add(k)
+        elif k == "imag":
+            raise Undecided(f"the imaginary part `{src(p)[:40]}` is read")
+    if "imag" in kinds or ("real" in kinds and "whole" in kinds):
+        raise Undecided(f"stores into {sorted(kinds)} parts of `{out}` are mixed")
+    # the reading of the real part
+    class Re(ast.NodeTransformer):
+        def visit_Attribute(self, n):
+            if is_part(n) and n.attr == "real":
+                return ast.copy_location(ast.Name(id=out, ctx=ast.Load()), n)
+            return self.generic_visit(n)
+
+        def visit_Name(self, n):
+            if n.id in alias and alias[n.id][0] == "real" and isinstance(n.ctx, ast.Load):
+                return ast.copy_location(ast.Name(id=out, ctx=ast.Load()), n)
+            return n
+    for blk in [getattr(n, f) for n in ast.walk(fn) for f in ("body", "orelse") if isinstance(getattr(n, f, None), list)]:
+        blk[:] = [st for st in blk if id(st) not in defs]
+    fn = ast.fix_missing_locations(Re().visit(fn))
+    return fn, ("real" if kinds == {"real"} and cplx else None)
+
+
+def prior_content_flow(fn, out="rho"):
+    """a load `out[...]` whose value reaches (through local names) a value stored into `out` -> source of the statement that
+    reads it, or None.  (Which loads see an element not yet written is decided by the symbolic reading, not here.)"""
+    def loads(e):
+        return [n for n in ast.walk(e) if isinstance(n, ast.Subscript) and isinstance(n.ctx, ast.Load) and
+                isinstance(n.value, ast.Name) and n.value.id == out]
+    tainted, first = {}, None
+    sts = [st for st in ast.walk(fn) if isinstance(st, (ast.Assign, ast.AugAssign))]
+    changed = True
+    while changed:
+        changed = False
+        for st in sts:
+            tg = st.targets if isinstance(st, ast.Assign) else [st.target]
+            names = [t.id for t in tg if isinstance(t, ast.Name)]
+            if not names:
+                continue
+            origin = None
+            if loads(st.value):
+                origin = src(st)
+            else:
+                for n in ast.walk(st.value):
+                    if isinstance(n, ast.Name) and n.id in tainted:
+                        origin = tainted[n.id]
+                        break
+            if origin is not None:
+                for v in names:
+                    if v not in tainted:
+                        tainted[v] = origin
+                        changed = True
+    for st in sts:
+        tg = st.targets if isinstance(st, ast.Assign) else [st.target]
+        if any(isinstance(t, ast.Subscript) and isinstance(t.value, ast.Name) and t.value.id == out for t in tg):
+            if loads(st.value):
+                return src(st)
+            for n in ast.walk(st.value):
+                if isinstance(n, ast.Name) and n.id in tainted:
+                    return tainted[n.id]
+    return None
+
+
+def caller_prepares_output(chk, kname, out="rho"):
+    """statements of the callers of the kernel (caller + callee are one unit) that come before the call and write through / call on
+    the object handed over as the output array: the caller may reset there what the kernel leaves untouched"""
+    found = []
+    try:
+        formals = [a.arg for a in chk.func(U.PTOOLS, kname).args.args]
+        funcs = chk.mod(U.POISSON).functions()
+    except AnalysisError:
+        return found
+    for q, f_ in funcs.items():
+        for c in ast.walk(f_):
+            if not (isinstance(c, ast.Call) and isinstance(c.func, ast.Name) and c.func.id == kname):
+                continue
+            b = agree.bind_call(c, formals) or {}
+            act = b.get(out)
+            if act is None:
+                found.append(f"{q}: output argument of `{src(c)[:40]}` not identified")
+                continue
+            roots = {n.id for n in ast.walk(_resolved(f_, act)) if isinstance(n, ast.Name)} | {n.id for n in ast.walk(act) if isinstance(n, ast.Name)}
+            roots -= {"self", "np", "numpy"}
+            for st in ast.walk(f_):
+                if not isinstance(st, (ast.Assign, ast.AugAssign, ast.Expr)) or st.lineno >= c.lineno or \
+                        any(x is c for x in ast.walk(st)):
+                    continue
+                if isinstance(st, ast.Expr):
+                    if not isinstance(st.value, ast.Call):
+                        continue
+                    touched = [n for n in ast.walk(st.value) if isinstance(n, ast.Name) and n.id in roots]
+                else:
+                    tg = st.targets if isinstance(st, ast.Assign) else [st.target]
+                    touched = [n for t in tg if isinstance(t, (ast.Subscript, ast.Attribute)) for n in ast.walk(t)
+                               if isinstance(n, ast.Name) and n.id in roots]
+                if touched:
+                    found.append(src(st))
+    return found
+
+
+PART_DIAGNOSIS = ("the kernel writes the weighted sum into `rho.{part}` only, and `rho` may be complex (its annotation admits "
+                  "complex128[:,:,:], the storage the simulation uses because rho later holds its Fourier modes): the {other} part is "
+                  "not written and keeps whatever the array held before the call, so rho is not the velocity integral")
+
+
+KERNEL_FEQ_ORIENT = {}          # kernel name -> 'rv' (reads feq[i, l]) | 'vr' (reads feq[l, i])
+
+
+def caller_feq_orientation(chk, kname):
+    """which way round the equilibrium rows handed to the kernel are, as far as the constructor and the call site say:
+    'rv' = [local radius, velocity], 'vr' = [velocity, local radius], None = not established; second value: text of what is passed"""
+    try:
+        fn = chk.func(U.POISSON, "DensityFinder.getPerturbedRho")
+        init = chk.func(U.POISSON, "DensityFinder.__init__")
+        formals = [a.arg for a in chk.func(U.PTOOLS, kname).args.args]
+    except AnalysisError:
+        return None, "?"
+    cs = [x for x in ast.walk(fn) if isinstance(x, ast.Call) and isinstance(x.func, ast.Name) and x.func.id == kname]
+    if len(cs) != 1:
+        return None, "?"
+    b = agree.bind_call(cs[0], formals) or {}
+    fe = b.get(KERNEL_ROLES.get(kname, {}).get("feq", "feq"))
+    if fe is None:
+        return None, "?"
+
+    def unwrap(e, ctx):
+        for _ in range(6):
+            e = _resolved(ctx, e)
+            if isinstance(e, ast.Call) and src(e.func) in ("np.ascontiguousarray", "np.asarray", "np.array", "np.copy") and e.args:
+                e = e.args[0]
+            elif isinstance(e, ast.Call) and isinstance(e.func, ast.Attribute) and e.func.attr == "copy" and not e.args:
+                e = e.func.value
+            else:
+                break
+        return e
+
+    def is_full(x):
+        return isinstance(x, ast.Slice) and x.lower is None and x.upper is None and x.step is None
+    e = unwrap(fe, fn)
+    text = src(e)
+    if not (isinstance(e, ast.Subscript) and src(e.value) == "self._fEq"):
+        return None, text
+    sl = e.slice
+    if isinstance(sl, ast.Tuple) and len(sl.elts) == 2 and is_full(sl.elts[0]) and not is_full(sl.elts[1]):
+        sel = "cols"
+    elif isinstance(sl, ast.Tuple) and len(sl.elts) == 2 and is_full(sl.elts[1]) and not is_full(sl.elts[0]):
+        sel = "rows"
+    elif not isinstance(sl, ast.Tuple):
+        sel = "rows"
+    else:
+        return None, text
+    # orientation of the table itself
+    defs = [n for n in ast.walk(init) if isinstance(n, ast.Assign) and any(src(t) == "self._fEq" for t in n.targets)]
+    if len(defs) != 1:
+        return None, text
+
+    def filled_rv(name_src):
+        """is the array filled by feq_vector(<it>, r points, v points, ...) in the constructor?"""
+        for c in ast.walk(init):
+            if isinstance(c, ast.Call) and src(c.func).split(".")[-1] == "feq_vector" and c.args and src(c.args[0]) == name_src and len(c.args) >= 3:
+                return "[0]" in src(_resolved(init, c.args[1])) and "[3]" in src(_resolved(init, c.args[2]))
+        return False
+    v = unwrap(defs[0].value, init)
+    table = None
+    if isinstance(v, ast.Call) and src(v.func) in ("np.empty", "np.zeros", "np.ndarray") and filled_rv("self._fEq"):
+        table = "rv"
+    else:
+        inner = None
+        if isinstance(v, ast.Attribute) and v.attr == "T":
+            inner = v.value
+        elif isinstance(v, ast.Call) and src(v.func) in ("np.transpose",) and len(v.args) == 1:
+            inner = v.args[0]
+        elif isinstance(v, ast.Call) and isinstance(v.func, ast.Attribute) and v.func.attr == "transpose" and not v.args:
+            inner = v.func.value
+        if isinstance(inner, ast.Name) and filled_rv(inner.id):
+            table = "vr"
+    if table is None:
+        return None, text
+    if (table, sel) == ("rv", "rows"):
+        return "rv", text
+    if (table, sel) == ("vr", "cols"):
+        return "vr", text
+    return "mixed", text + f" of a table kept [{'radius, velocity' if table == 'rv' else 'velocity, radius'}]"
+
+
+def feq_orientation_verdict(chk, name, rel, fn0, got, spec_of, label, R):
+    """the kernel formula did not match with the equilibrium read as feq[i, l]: is it the same formula with the table read the
+    other way round (feq[l, i])?  Then kernel and caller must agree on how the rows they exchange are laid out: compared with each
+    other -> True when an obligation was made"""
+    alt = spec_of("vr")
+    if not alg_equal(got, alt):
+        return False
+    KERNEL_FEQ_ORIENT[name] = "vr"
+    c, text = caller_feq_orientation(chk, name)
+    if c == "vr":
+        chk.ob("F3-density-sum", fn0, label, True, "the kernel reads the equilibrium as feq[l, i] (velocity-major) and the caller hands it "
+               f"`{text[:60]}`, the columns of the local radii of a table kept [velocity, radius]: the same convention on both sides",
+               file=rel, func=name, facts={"code": str(got)[:300], "spec": str(alt)})
+    elif c in ("rv", "mixed"):
+        chk.ob("F3-density-sum", fn0, label, False, f"the kernel reads the equilibrium as feq[l, i] (first index = velocity) but the caller hands it "
+               f"`{text[:80]}`, whose first index is the " + ("local radius" if c == "rv" else "velocity only if rows and columns are taken "
+               "consistently, which they are not") + ": writer and reader of the table disagree, so values of other (r, v) points are "
+               "subtracted (or the index runs past the table)", file=rel, func=name, facts={"code": str(got)[:300], "spec": str(alt)})
+    else:
+        chk.ob("F3-density-sum", fn0, label, None, "the kernel reads the equilibrium as feq[l, i] (velocity-major); that the caller hands it a "
+               f"table laid out that way (`{text[:60]}`) was not established", file=rel, func=name)
+    return True
+
+
+def feq_rv_against_caller(chk, name, rel, fn0, got, spec, label):
+    """the kernel reads feq[i, l]; the caller provably hands it a table laid out the other way -> True when reported"""
+    c, text = caller_feq_orientation(chk, name)
+    if c not in ("vr", "mixed"):
+        return False
+    chk.ob("F3-density-sum", fn0, label, False, "the kernel reads the equilibrium as feq[i, l] (first index = local radius) but the caller hands it "
+           f"`{text[:80]}`, " + ("whose first index is the velocity" if c == "vr" else "a selection that does not pick the local radii along "
+                                  "the first index") + ": writer and reader of the table disagree, so values of other (r, v) points are "
+           "subtracted (or the index runs past the table)", file=rel, func=name, facts={"code": str(got)[:300], "spec": str(spec)})
+    return True
+
+
 def kernel_formula(chk, rel, name, perturbed):
     fn = chk.func(rel, name)
     fn0 = fn
-    args = make_args(fn, arrays=("rho",))
-    fn = merge_partial_views(fn)
     ranks = _array_ranks(chk.mod(rel).tree, fn0)
+    part = None
+    R = kernel_roles(ranks)
+    KERNEL_ROLES[name] = R
+    args = make_args(fn, arrays=(R["rho"],))
+    prior = []                                  # elements of rho read before anything was stored into them (symbolic reading)
+    if isinstance(args.get(R["rho"]), Arr):
+        rho_fn = args[R["rho"]].fn
+        args[R["rho"]] = Arr(R["rho"], generic=(lambda idx: (prior.append(tuple(idx)), rho_fn(*idx))[1]))
+        args[R["rho"]].fn = rho_fn
     loop_free = not any(isinstance(n, (ast.For, ast.While)) for n in ast.walk(fn0))
-    whole = loop_free or _whole_array_features(fn, ranks)
+    whole = loop_free or _whole_array_features(merge_partial_views(fn), ranks)
+    if not whole:
+        # element loops: stores through a view of one part of rho (whole-array code has its own treatment of part views)
+        try:
+            fn, part = part_views(fn, ranks, R["rho"])
+        except Undecided as e:
+            chk.ob("F3-density-sum", fn0, name, None, f"kernel outside the extractable fragment: {e}", file=rel, func=name)
+            return
+    fn = merge_partial_views(fn)
     errs = []
     if whole:
         # whole-array code (possibly inside loops over some axes): the rank-aware model; the loop interpreter lifts operators
@@ -752,7 +1064,8 @@ def kernel_formula(chk, rel, name, perturbed):
     try:
         try:
             ex.run()
-            got = ex.env["rho"].read([i, j, k])
+            n_prior = len(prior)
+            got = ex.env[R["rho"]].read([i, j, k])
         except Undecided:
             raise
         except Exception as ie:              # the loop interpreter met a construct it does not model
@@ -766,15 +1079,49 @@ def kernel_formula(chk, rel, name, perturbed):
             errs.append(f"as whole-array code: {e2}")
         chk.ob("F3-density-sum", fn, name, None, f"kernel outside the extractable fragment: {'; '.join(errs)}", file=rel, func=name)
         return
-    q, g = args["quad_coeffs"].fn, args["grid"].fn
-    nc = Symbol("n0_quad_coeffs", integer=True, positive=True)
+    if any(not isinstance(args.get(R[r_]), Arr) for r_ in (("quad_coeffs", "grid", "feq") if perturbed else ("quad_coeffs", "grid"))):
+        chk.ob("F3-density-sum", fn, name, None, f"the parameters of the kernel were not identified by rank: {ranks}", file=rel, func=name)
+        return
+    q, g = args[R["quad_coeffs"]].fn, args[R["grid"]].fn
+    nc = Symbol(f"n0_{R['quad_coeffs']}", integer=True, positive=True)
     row = i
     if perturbed:
-        row, coff = _row_of_equilibrium(sp.sympify(got), args["feq"].fn, i, (j, k, l))
+        row, coff = _row_of_equilibrium(sp.sympify(got), args[R["feq"]].fn, i, (j, k, l))
         KERNEL_ROW_OFFSET[name] = coff
-    term = q(l) * (g(i, j, k, l) - (args["feq"].fn(row, l) if perturbed else 0))
+    term = q(l) * (g(i, j, k, l) - (args[R["feq"]].fn(row, l) if perturbed else 0))
     spec = sp.Sum(term, (l, 0, nc - 1))
     ok = alg_equal(got, spec)
+    if perturbed:
+        KERNEL_FEQ_ORIENT[name] = "rv"
+    if perturbed and ok and part is None and feq_rv_against_caller(chk, name, rel, fn0, got, spec, "rho[i,j,k] = sum_l w_l (f[i,j,k,l] - f_eq[i,l])"):
+        return
+    if perturbed and not ok and part is None:
+        lab_ = "rho[i,j,k] = sum_l w_l (f[i,j,k,l] - f_eq[i,l])"
+        if feq_orientation_verdict(chk, name, rel, fn0, got, lambda o: sp.Sum(q(l) * (g(i, j, k, l) - args[R["feq"]].fn(l, i)), (l, 0, nc - 1)),
+                                   lab_, R):
+            return
+    flows = prior_content_flow(fn, R["rho"]) if ok and n_prior else None
+    if ok and flows and not sp.sympify(got).has(args[R["rho"]].fn):
+        chk.ob("F3-density-sum", fn0, "rho[i,j,k] = sum_l w_l (f[i,j,k,l]" + (" - f_eq[i,l])" if perturbed else ")"), False,
+               f"`{flows[:70]}` reads an element of rho that the kernel has not stored yet, and the value read goes into what is stored: "
+               "it drops out of the formula only algebraically (x * 0.0, x - x), which floating-point arithmetic does not honour for "
+               "non-finite values (0.0 * nan = nan, 0.0 * inf = nan, inf - inf = nan): a nan / inf left in the density grid (storage "
+               "from np.empty, a diverged step, the Fourier modes of the previous step) survives, so the density depends on the previous "
+               "content of the output array instead of being the velocity integral", file=rel, func=name,
+               facts={"code": str(got)[:300], "spec": str(spec), "prior_reads": [str(x) for x in prior[:3]]})
+        return
+    if ok and part is not None:
+        pre = caller_prepares_output(chk, name, R["rho"])
+        if pre:
+            chk.ob("F3-density-sum", fn0, "rho[i,j,k] = sum_l w_l (f[i,j,k,l]" + (" - f_eq[i,l])" if perturbed else ")"), None,
+                   f"the kernel writes the weighted sum into `rho.{part}` only; the caller touches the density storage before the call "
+                   f"(`{pre[0][:60]}`): whether the other part is reset there is not decided", file=rel, func=name)
+            return
+        chk.ob("F3-density-sum", fn0, "rho[i,j,k] = sum_l w_l (f[i,j,k,l]" + (" - f_eq[i,l])" if perturbed else ")"), False,
+               PART_DIAGNOSIS.format(part=part, other="imaginary" if part == "real" else "real") +
+               " (no statement of the kernel stores into whole elements of rho or into the other part)", file=rel, func=name,
+               facts={"code": str(got)[:300], "spec": str(spec), "part": part})
+        return
     chk.ob("F3-density-sum", fn, "rho[i,j,k] = sum_l w_l (f[i,j,k,l]" + (" - f_eq[i,l])" if perturbed else ")"), ok,
            "density is the weighted sum over v of " + ("f minus the equilibrium of the same radius row" if perturbed else "f") if ok else
            f"extracted formula {str(got)[:200]} differs from the specification {spec}", file=rel, func=name,
@@ -885,6 +1232,89 @@ def inline_sibling_delegations(mod, cls_name):
     if done:
         mod._link()
     return done
+
+
+def write_out_star_args(mod, cls_name):
+    """`f(a, *xs)` with xs a list written out in the source - a display, or a comprehension over a table of literals (local or class
+    attribute assigned once), `getattr(obj, 'name')` of a literal name being `obj.name` - is read as the call with the elements
+    written out.  Def-use resolution on the in-memory tree of this run only -> list of descriptions"""
+    import copy
+    try:
+        cls_ = mod.cls(cls_name)
+    except AnalysisError:
+        return []
+    done = []
+
+    def class_table(attr):
+        defs = [st.value for st in cls_.body if isinstance(st, ast.Assign) and any(isinstance(t, ast.Name) and t.id == attr for t in st.targets)]
+        defs += [n.value for n in ast.walk(cls_) if isinstance(n, ast.Assign) and
+                 any(isinstance(t, ast.Attribute) and t.attr == attr and src(t.value) in ("self", "cls") for t in n.targets)]
+        return defs[0] if len(defs) == 1 else None
+
+    def literal_seq(fn, e, depth=0):
+        if depth > 3:
+            return None
+        if isinstance(e, (ast.Tuple, ast.List)) and not any(isinstance(x, ast.Starred) for x in e.elts):
+            return list(e.elts)
+        if isinstance(e, ast.Name):
+            v = _single_value(fn, e.id)
+            return literal_seq(fn, v, depth + 1) if v is not None else None
+        if isinstance(e, ast.Attribute) and src(e.value) in ("self", "cls", cls_name, "type(self)", "self.__class__"):
+            v = class_table(e.attr)
+            return literal_seq(fn, v, depth + 1) if v is not None else None
+        if isinstance(e, ast.Call) and isinstance(e.func, ast.Name) and e.func.id in ("list", "tuple") and len(e.args) == 1:
+            return literal_seq(fn, e.args[0], depth + 1)
+        if isinstance(e, (ast.ListComp, ast.GeneratorExp)) and len(e.generators) == 1 and not e.generators[0].ifs and \
+                isinstance(e.generators[0].target, ast.Name):
+            rows = literal_seq(fn, e.generators[0].iter, depth + 1)
+            if rows is None or not all(isinstance(r, ast.Constant) for r in rows):
+                return None
+            var = e.generators[0].target.id
+            out = []
+            for r in rows:
+                class B(ast.NodeTransformer):
+                    def visit_Name(self, n):
+                        return ast.Constant(value=r.value) if n.id == var and isinstance(n.ctx, ast.Load) else n
+                x = B().visit(copy.deepcopy(e.elt))
+
+                class G(ast.NodeTransformer):
+                    def visit_Call(self, n):
+                        n = self.generic_visit(n)
+                        if isinstance(n.func, ast.Name) and n.func.id == "getattr" and len(n.args) == 2 and isinstance(n.args[1], ast.Constant) \
+                                and isinstance(n.args[1].value, str) and n.args[1].value.isidentifier():
+                            return ast.Attribute(value=n.args[0], attr=n.args[1].value, ctx=ast.Load())
+                        return n
+                out.append(G().visit(x))
+            return out
+        return None
+    for m in [st for st in cls_.body if isinstance(st, ast.FunctionDef)]:
+        for c in ast.walk(m):
+            if not (isinstance(c, ast.Call) and any(isinstance(a, ast.Starred) for a in c.args)):
+                continue
+            new_args, ok = [], True
+            for a in c.args:
+                if not isinstance(a, ast.Starred):
+                    new_args.append(a)
+                    continue
+                seq = literal_seq(m, a.value)
+                if seq is None:
+                    ok = False
+                    break
+                new_args.extend(ast.copy_location(x, a) for x in seq)
+            if ok:
+                done.append(f"{cls_name}.{m.name}: `{src(c)[:50]}` with the {len(new_args) - len(c.args) + 1} unpacked arguments written out")
+                c.args = new_args
+                ast.fix_missing_locations(c)
+    if done:
+        mod._link()
+    return done
+
+
+def _single_value(fn, name):
+    d_ = [n for n in ast.walk(fn) if isinstance(n, ast.Assign) and len(n.targets) == 1 and isinstance(n.targets[0], ast.Name)
+          and n.targets[0].id == name]
+    stores = sum(1 for n in ast.walk(fn) if isinstance(n, ast.Name) and n.id == name and isinstance(n.ctx, ast.Store))
+    return d_[0].value if len(d_) == 1 and stores == 1 else None
 
 
 def kernel_reached(chk, fn, c, kname, m):
@@ -1029,11 +1459,94 @@ def quadrature_system(chk):
                     if isinstance(d, ast.Assign) and any(isinstance(t, ast.Name) and t.id == n.id for t in d.targets):
                         out += unresolved(d.value, ctx, seen + ((ctx.name, n.id),))
         return out
+    cls_node = chk.mod(rel).cls("SplineInterpolator1D")
+
+    def siblings(c):
+        """solves of the interpolation methods (outside the quadrature computation) made on the same factorisation object in the same
+        call form (same receiver and method, same number of positional arguments, no `trans`)"""
+        if not (isinstance(c.func, ast.Attribute) and isinstance(c.func.value, ast.Attribute) and src(c.func.value.value) == "self"):
+            return []
+        recv = src(c.func.value)
+        ndef = sum(1 for n in ast.walk(cls_node) if isinstance(n, ast.Assign) and any(src(t) == recv for t in n.targets))
+        if ndef != 1:
+            return []
+        out = []
+        for mname, m_ in methods.items():
+            if m_ in group:
+                continue
+            for x in ast.walk(m_):
+                if is_solve(x) and src(x.func) == src(c.func) and len(x.args) == len(c.args) and \
+                        not any(k.arg in ("trans", None) for k in x.keywords):
+                    out.append((x, m_))
+        return out
+    def through_wrapper(c):
+        """'T' / 'N' when the receiver `self.<attr>` is built from classes of the module whose method of that name makes solve calls
+        that are all transposed / all plain once this call's arguments are bound; None otherwise"""
+        if not (isinstance(c.func, ast.Attribute) and isinstance(c.func.value, ast.Attribute) and src(c.func.value.value) == "self"):
+            return None
+        attr = c.func.value.attr
+        mod_classes = {st.name: st for st in chk.mod(rel).tree.body if isinstance(st, ast.ClassDef)}
+        ctors = [n.value for n in ast.walk(cls_node) if isinstance(n, ast.Assign) and any(src(t) == f"self.{attr}" for t in n.targets)]
+        if not ctors or not all(isinstance(v, ast.Call) and isinstance(v.func, ast.Name) and v.func.id in mod_classes for v in ctors):
+            return None
+        verdicts = set()
+        for v in ctors:
+            meth = next((st for st in mod_classes[v.func.id].body if isinstance(st, ast.FunctionDef) and st.name == c.func.attr), None)
+            if meth is None:
+                return None
+            formals = [a.arg for a in meth.args.args][1:]
+            if len(c.args) > len(formals) or any(k.arg not in formals for k in c.keywords):
+                return None
+            bind = dict(zip(formals, c.args))
+            bind.update({k.arg: k.value for k in c.keywords})
+            for f_, d_ in zip(formals[len(formals) - len(meth.args.defaults):], meth.args.defaults):
+                bind.setdefault(f_, d_)
+            if {n.id for n in ast.walk(meth) if isinstance(n, ast.Name) and isinstance(n.ctx, ast.Store)} & set(formals):
+                return None
+            inner = [x for x in ast.walk(meth) if is_solve(x)]
+            if not inner:
+                return None
+            for x in inner:
+                tk = [k.value for k in x.keywords if k.arg == "trans"]
+                val = tk[0] if tk else None
+
+                def fold(e):
+                    if isinstance(e, ast.Name) and e.id in bind:
+                        return fold(bind[e.id])
+                    if isinstance(e, ast.IfExp):
+                        t_ = fold(e.test)
+                        if isinstance(t_, ast.Constant):
+                            return fold(e.body if t_.value else e.orelse)
+                    if isinstance(e, ast.UnaryOp) and isinstance(e.op, ast.Not):
+                        t_ = fold(e.operand)
+                        if isinstance(t_, ast.Constant):
+                            return ast.Constant(value=not t_.value)
+                    return e
+                val = fold(val) if val is not None else None
+                if val is None:
+                    verdicts.add("N" if x.func.attr == "solve" else "?")
+                elif isinstance(val, ast.Constant) and val.value in ("T", True, 1):
+                    verdicts.add("T")
+                elif isinstance(val, ast.Constant) and val.value in ("N", False, 0):
+                    verdicts.add("N")
+                else:
+                    verdicts.add("?")
+        return verdicts.pop() if len(verdicts) == 1 and "?" not in verdicts else None
     for g, c in solves:
         args = list(c.args) + [k.value for k in c.keywords if k.arg not in ("trans", "overwrite_b", "overwrite_ab")]
         rhs = [a for a in args if not (isinstance(a, ast.Attribute) and isinstance(a.value, ast.Name) and a.value.id == "self" and
                                        a.attr in ("_bmat", "_l", "_u", "_ipiv", "_splu"))]
         tr = [k for k in c.keywords if k.arg == "trans"]
+        if not tr and isinstance(c.func, ast.Attribute) and c.func.attr == "solve" and len(c.args) == 2 and \
+                isinstance(c.args[1], ast.Constant) and isinstance(c.args[1].value, str):
+            tr = [ast.keyword(arg="trans", value=c.args[1])]        # SuperLU.solve(rhs, trans)
+            rhs = [a for a in rhs if a is not c.args[1]]
+        if not tr:
+            # caller + callee: the solve of a small solver object of the module (`self._solver.solve(rhs, transposed=True)`): the
+            # transposition its own solve call(s) get with this call's arguments bound
+            inner = through_wrapper(c)
+            if inner is not None:
+                tr = [ast.keyword(arg="trans", value=ast.Constant(value=inner))]
         transposed = bool(tr) and (src(tr[0].value) in ("'T'", '"T"', "True", "1"))
         reads = any(flows(a, g) for a in rhs)
         opaque = [] if reads else [x for a in rhs for x in unresolved(a, g)]
@@ -1051,6 +1564,13 @@ def quadrature_system(chk):
         elif reads and tr and not transposed and src(tr[0].value) in ("'N'", '"N"', "False", "0"):
             ok, why = False, (f"`{src(c)[:60]}` solves the interpolation system itself (trans={src(tr[0].value)}), not its transpose: the "
                               "result is not a set of quadrature weights")
+        elif reads and not tr and siblings(c):
+            # relational: the same factorisation is used, in the same call form, by the interpolation itself
+            sb, sg = siblings(c)[0]
+            ok, why = False, (f"`{src(c)[:60]}` passes no `trans` argument, exactly like `{src(sb)[:50]}` in {sg.name}, which solves the "
+                              f"interpolation (collocation) system M c = u with the same factorisation `{src(c.func.value)}`: the weights "
+                              "must solve the TRANSPOSED system M^T q = integrals of the basis; the collocation matrix is symmetric only "
+                              "for uniform knots, so on a non-uniform periodic space the result is not a set of quadrature weights")
         elif reads:
             ok, why = None, f"`{src(c)[:60]}`: whether the transposed system is solved was not recognised"
         else:
@@ -1517,18 +2037,26 @@ def run(chk):
     merged = inline_sibling_delegations(chk.mod(U.POISSON), "DensityFinder")
     if merged:
         chk.note("merged code paths read as the methods they stand for: " + "; ".join(merged))
+    written = write_out_star_args(chk.mod(U.POISSON), "DensityFinder")
+    if written:
+        chk.note("unpacked argument lists written out: " + "; ".join(written))
     chk.explanation = (
         "Engine F: the density kernels compute rho[i,j,k] = sum_l w_l (f[i,j,k,l] - f_eq[i,l]) (resp. without f_eq), read either "
         "as element loops or as whole-array numpy code (broadcasting, einsum / dot / matmul / tensordot / sum over an axis, out=: every "
         "array is its generic element, a contraction a symbolic Sum; a store into rho.real / rho.imag of a possibly complex rho is a "
-        "partial write), and "
+        "partial write; in element loops a store through a view of one part (`rho.real[...]`, or a local bound to it) is followed by "
+        "def-use and leaves the other part unwritten; an element of rho read before the kernel stored into it and flowing into the "
+        "result makes the density depend on the previous content of the grid - 0.0 * nan is nan - even where it cancels "
+        "algebraically; kernel parameters are identified by the rank of their annotation), and "
         "feq_vector fills f_eq(r_i, v_j); the constructor of DensityFinder is read symbolically (tables as column ranges with their "
         "element function, both arms of every test): every entry [i, j] of the equilibrium table is f_eq(r_i, v_j) on every path; the "
         "kernel call is reached on every path of getRho / getPerturbedRho (no early return or branch that stores something else); a "
         "method that only delegates to its sibling with an argument bound is read as the sibling's body with that argument; engine C: the equilibrium table is [global r, global v], looked up with the global "
         "radial indices of the local block, and all kernel arguments indexed by one loop variable cover the same index range; "
         "the weights come from the interpolator of the v-spline, the dimension of the kernel's last axis; the quadrature "
-        "computation does not mutate the basis' stored integrals. Exactness on the spline space is C09's numerical part and "
+        "computation does not mutate the basis' stored integrals; the quadrature solve is compared with the interpolation solves made on "
+        "the same factorisation (the same call form without `trans` solves the collocation system, not its transpose); argument lists "
+        "unpacked from tables written out in the source are written out before the roles are compared. Exactness on the spline space is C09's numerical part and "
         "is not decided.")
     chk.assumptions += ["SplineInterpolator1D.get_quadrature_coefficients returns the weights of the spline's quadrature (C09)"]
     chk.in_file(U.PTOOLS)
@@ -1586,11 +2114,13 @@ def run(chk):
                    "the arguments are passed by unpacking (`*args` / `**kwargs`): their roles were not followed",
                    file=U.POISSON, func=f"DensityFinder.{m}")
             continue
+        KR = KERNEL_ROLES.get(kname, {})
+        table = {k_: KR.get(v_, v_) for k_, v_ in table.items()}
         kernel_reached(chk, fn, c, kname, m)
         agree.check_roles(chk, U.POISSON, f"DensityFinder.{m}", c, [a.arg for a in chk.func(U.PTOOLS, kname).args.args], table)
         # the output argument is the whole storage of the density grid
         bb = agree.bind_call(c, [a.arg for a in chk.func(U.PTOOLS, kname).args.args]) or {}
-        out = bb.get("rho")
+        out = bb.get(KR.get("rho", "rho"))
         so = src(out) if out is not None else "?"
         oko = True if so == "rho.getAllData()" else None
         why = "the kernel writes the storage of the density grid itself"
@@ -1606,7 +2136,7 @@ def run(chk):
         chk.ob("E2-output-storage", out or c, f"{kname}: rho <- {so}", oko, why, file=U.POISSON, func=f"DensityFinder.{m}")
         if m == "getPerturbedRho":
             b = agree.bind_call(c, [a.arg for a in chk.func(U.PTOOLS, kname).args.args]) or {}
-            fe = b.get("feq")
+            fe = b.get(KR.get("feq", "feq"))
             # ---- which rows the kernel reads and which rows it is given: the two sides of one convention
             off = KERNEL_ROW_OFFSET.get(kname, sp.Integer(0))
             fe_r = _resolved(fn, fe) if fe is not None else None
@@ -1650,6 +2180,15 @@ def run(chk):
                         first_local = src(lay) in ("grid.getLayout(grid.currentLayout)", "grid._layout")
                     elif src(base) == "grid.getGlobalIdxVals(0)":
                         first_local = True
+                elif isinstance(act_r, ast.Attribute) and act_r.attr == "start" and src(_resolved(fn, act_r.value)) == "grid.getGlobalIdxVals(0)":
+                    # the first element of the range of global indices: read off Grid.getGlobalIdxVals (returns range(start, end))
+                    try:
+                        gg = chk.mod(U.GRID).func("Grid.getGlobalIdxVals")
+                        rets = [r_ for r_ in ast.walk(gg) if isinstance(r_, ast.Return) and r_.value is not None]
+                        first_local = len(rets) == 1 and isinstance(rets[0].value, ast.Call) and src(rets[0].value.func) == "range" and \
+                            len(rets[0].value.args) == 2 and "starts" in src(rets[0].value.args[0])
+                    except AnalysisError:
+                        first_local = False
                 if act is None:
                     okr, whyr = None, f"the kernel reads row i + {off}; the actual for that offset was not found at the call"
                 elif first_local and whole_table and tab_ok is not True:
